@@ -375,6 +375,47 @@ def run(ctx: Context, rep) -> None:
                message="infos must come from the fillers returned by the "
                "workers (copies made in other processes), not from the "
                "parent's pre-pool objects which never saw the writes")
+    # ... accumulated in sequences: a keyed or set collection on the way
+    # merges the infos that share the key (two splits of one worker
+    # directory, equal infos of two workers)
+    def keyed_defs(e, seen, depth=0):
+        out = []
+        for nm in sorted(names_in(e)):
+            if nm in seen or depth > 4:
+                continue
+            seen.add(nm)
+            for d in wm.body_nodes():
+                v = None
+                if isinstance(d, ast.Assign) and any(
+                        isinstance(t, ast.Name) and t.id == nm
+                        for t in d.targets):
+                    v = d.value
+                elif isinstance(d, ast.AnnAssign) and isinstance(
+                        d.target, ast.Name) and d.target.id == nm and d.value:
+                    v = d.value
+                if v is None:
+                    continue
+                fname = dotted(v.func).rsplit(".", 1)[-1] if isinstance(
+                    v, ast.Call) and dotted(v.func) else ""
+                if isinstance(v, (ast.Dict, ast.DictComp, ast.Set,
+                                  ast.SetComp)) or fname in (
+                                      "dict", "set", "frozenset",
+                                      "defaultdict", "OrderedDict", "Counter",
+                                      "fromkeys", "groupby", "unique"):
+                    out.append((d, nm))
+                else:
+                    out += keyed_defs(v, seen, depth + 1)
+        return out
+    for w in wcs:
+        e = ctx.arg(w.ast, 0, "updated_infos")
+        kd = keyed_defs(e, set()) if e is not None else []
+        rep.ob("C09.collect", not kd, loc=wm.loc(kd[0][0]) if kd else
+               wm.loc(w.ast), where=wm.qualname,
+               construct=(f"`{kd[0][1]}` is a keyed / set collection: " +
+                          short(kd[0][0], 50)) if kd else
+               "infos accumulated in sequences only",
+               message="every reported shard-list info reaches write_config "
+               "(no collection that merges entries sharing a key)")
     # all outputs, in order: comprehension / loop without slice or filter
     for n in wm.body_nodes():
         if isinstance(n, (ast.ListComp, ast.For)):
@@ -494,6 +535,11 @@ def run(ctx: Context, rep) -> None:
     # C04.count)
     from sa.rules import shared as _sh09
     _sh09.share_rules(ctx, rep, "c04", {"C04.count": "C09.count"})
+    # the fillers travel back from the workers by pickling: a shard writer
+    # that was constructed but never written to holds no OS resource (same
+    # structural check as C04.lazy-file; an open TFRecordWriter cannot be
+    # pickled and the whole multi-writer call fails)
+    _sh09.share_rules(ctx, rep, "c04", {"C04.lazy-file": "C09.lazy-writer"})
     # every writer writes where the parent will look: the root is resolved
     # at construction (same check as C20's root part)
     from sa.rules.c20 import check_root_resolved as _crr9
